@@ -73,6 +73,12 @@ def r1(ctx, table):
         for cs in emits:
             if not any(d != cs.bb and b.dominates(d, cs.bb) for d in decisions):
                 bad.append("%s at %s is emitted before the range decision" % (X.short(cs.callee), cs.loc()))
+        for eb in err_locs:
+            after = b.reach_from(eb)
+            leak = [cs for cs in emits if cs.bb in after]
+            if leak:
+                bad.append("after %s is built the function goes on to emit (%s at %s) instead of returning the error" % (
+                    e["error"][4:], X.short(leak[0].callee), leak[0].loc()))
         detail["emitting_calls"] = len(emits)
         if bad:
             ctx.fail(rule, e["id"] + "#order", "; ".join(bad[:3]), "%s:%d" % (b.file, b.line), detail)
